@@ -24,11 +24,15 @@ pub struct Case {
     pub repeatable: Vec<usize>,
     pub depth: usize,
     pub has_group: bool,
+    /// defaulted groups of the root level
+    pub groups: Vec<Vec<NamedSpec>>,
 }
 
 fn cfg() -> BroadCfg {
     BroadCfg {
         max_fields: 5,
+        adjacent_cmds: true,
+        wrapped_groups: true,
         ..BroadCfg::default()
     }
 }
@@ -54,7 +58,8 @@ pub fn repeatable_leaves(level: &Level) -> Vec<usize> {
             | Node::Collect { n, .. }
             | Node::Count(n)
             | Node::Last(n) => go(n, true, out),
-            Node::Cmd(c) => go(&c.level.body, false, out),
+            // every instance of a chained (adjacent) command brings its own items
+            Node::Cmd(c) => go(&c.level.body, rep && c.adjacent, out),
             other => {
                 for c in other.children() {
                     go(c, rep, out);
@@ -64,6 +69,35 @@ pub fn repeatable_leaves(level: &Level) -> Vec<usize> {
     }
     let mut out = Vec::new();
     go(&level.body, false, &mut out);
+    out
+}
+
+/// groups of >=2 required named items under optional/fallback/fallback_with at the top of a
+/// level: (leaf ids of the members)
+pub fn defaulted_groups(level: &Level) -> Vec<Vec<NamedSpec>> {
+    let mut out = Vec::new();
+    let fields: Vec<&Node> = match &level.body {
+        Node::Seq(xs) => xs.iter().collect(),
+        other => vec![other],
+    };
+    for f in fields {
+        let inner = match f {
+            Node::Optional { n, .. } | Node::Fallback { n, .. } | Node::FallbackWith { n, ok: true, .. } => n,
+            _ => continue,
+        };
+        if let Node::Seq(xs) = &**inner {
+            let leaves: Vec<NamedSpec> = xs
+                .iter()
+                .filter_map(|x| match x {
+                    Node::Named(l) => Some(l.clone()),
+                    _ => None,
+                })
+                .collect();
+            if leaves.len() == xs.len() && leaves.len() >= 2 {
+                out.push(leaves);
+            }
+        }
+    }
     out
 }
 
@@ -141,6 +175,7 @@ pub fn decode(bytes: &[u8]) -> Case {
     let plan = plan_spelling(&mut u, &lay, &opts, &mut ex);
     let has_group = lay.items.iter().any(|i| i.group.is_some());
     Case {
+        groups: defaulted_groups(&level),
         repeatable: repeatable_leaves(&level),
         level,
         lay,
@@ -314,6 +349,32 @@ impl Prop for C05 {
                     probes.push(("value-on-flag", a));
                 }
             }
+        }
+        // one member of a defaulted group that is otherwise absent: the group cannot be completed,
+        // so the member is claimed by nobody
+        for g in &case.groups {
+            let present = case.lay.items.iter().any(|i| match &i.kind {
+                LKind::Occ(o) => g.iter().any(|l| l.id == o.leaf),
+                _ => false,
+            });
+            if present {
+                continue;
+            }
+            let l = &g[argv.len() % g.len()];
+            let mut item = l.first_name().into_bytes();
+            let mut extra: Vec<Vec<u8>> = Vec::new();
+            if let NamedKind::Arg { ty, .. } = &l.kind {
+                if ty.is_num() {
+                    item.extend_from_slice(b"=7");
+                } else {
+                    extra.push(b"pv".to_vec());
+                }
+            }
+            let mut a = vec![item];
+            a.extend(extra);
+            a.extend(argv.iter().cloned());
+            probes.push(("partial-defaulted-group", a));
+            ctx.class("partial-group-probe");
         }
         for (kind, a) in probes {
             let o = run(&parser, &a);
